@@ -408,6 +408,70 @@ def generated_equations(rng, k):
     return out
 
 
+S_STEP_SRC = """
+from pysph.sph.integrator_step import IntegratorStep
+
+
+class VSourceArgStep(IntegratorStep):
+    # a stepper that names properties through s_ arguments as well (for a
+    # stepper both prefixes mean the stepped array itself)
+    def initialize(self, d_idx, d_x, s_vx0):
+        s_vx0[d_idx] = d_x[d_idx]
+
+    def stage1(self, d_idx, d_x, d_u, s_vx0, s_vk, dt):
+        d_x[d_idx] = s_vx0[d_idx] + dt*d_u[d_idx] + s_vk[d_idx]
+"""
+
+
+def check_source_arg_stepper(mon, viol):
+    """Stepper arguments with the s_ prefix are checked like the d_ ones."""
+    import linecache
+    from pysph.sph.integrator import EulerIntegrator
+    from pysph.sph.equation import Equation
+    fname = '<c20-s-step>'
+    linecache.cache[fname] = (len(S_STEP_SRC), None,
+                              S_STEP_SRC.splitlines(True), fname)
+    ns = {'__name__': 'c20_s_step'}
+    exec(compile(S_STEP_SRC, fname, 'exec'), ns)
+    cls = ns['VSourceArgStep']
+
+    class Nothing(Equation):
+        def initialize(self, d_idx, d_zz_extra):
+            d_zz_extra[d_idx] = 0.0
+    need = {'x', 'u', 'vx0', 'vk'}
+    full = [make_array('dest', need), make_array('other', need)]
+    stage, exc = stages(full, [Nothing(dest='dest', sources=None)],
+                        EulerIntegrator(dest=cls()))
+    if exc is not None:
+        mon['baseline_not_buildable'] = mon.get(
+            'baseline_not_buildable', 0) + 1
+        mon.setdefault('_unbuildable', []).append(
+            'VSourceArgStep: %s at %s: %s' % (type(exc).__name__, stage,
+                                              str(exc)[:120]))
+        return
+    for missing in ('vx0', 'vk', 'u'):
+        # the stepped array lacks it, another array of the problem has it
+        arrays = [make_array('dest', need - {missing}),
+                  make_array('other', need)]
+        stage, exc = stages(arrays, [Nothing(dest='dest', sources=None)],
+                            EulerIntegrator(dest=cls()))
+        mon['faults_stepper'] = mon.get('faults_stepper', 0) + 1
+        mon['faults_stepper_s_args'] = mon.get('faults_stepper_s_args',
+                                               0) + 1
+        r = judge(stage, exc, 'VSourceArgStep', missing, 'stepper-s-argument')
+        if r:
+            viol.append(dict(key=r[0], what='stepper argument %s_%s, '
+                             'property removed from the stepped array: %s'
+                             % ('s' if missing != 'u' else 'd', missing,
+                                r[1]),
+                             case=dict(stepper='VSourceArgStep',
+                                       name=missing)))
+            mon['violating_faults'] = mon.get('violating_faults', 0) + 1
+        else:
+            mon['rejected_at_' + stage] = mon.get('rejected_at_' + stage,
+                                                  0) + 1
+
+
 def work(item):
     mon = {}
     viol = []
@@ -430,6 +494,8 @@ def work(item):
         if nf:
             distinct.append(n)
         mon['classes'] = mon.get('classes', 0) + 1
+    if item['part'] == 0:
+        check_source_arg_stepper(mon, viol)
     gen = generated_equations(rng, item.get('ngen', 6))
     for n, cls in gen.items():
         nf = check_equation(n, cls, mon, viol, rng)
